@@ -337,6 +337,8 @@ def run(tier, seed):
     chk.encode(Sector.AddCashFlow, sfc_models.equation.Equation.AddTerm, sfc_models.equation.Term.__init__, sfc_models.equation.Term.__str__,
                sfc_models.models.Model.AddCashFlowIncomeExclusion, sfc_models.models.Model.RegisterCashFlow,
                sfc_models.models.Model._GenerateRegisteredCashFlows)
+    from vf import selfcheck
+    selfcheck.run_coef(chk)      # differential validation of the E2 value class against the plain run (trusted base)
     cfgs = configs(tier)
     hs = histories(tier)
     rc = reg_cases(tier)
